@@ -4,7 +4,7 @@ import CTV.Gen.TbsBodies
 # C03: the hand-written leaf builders follow the bodies regenerated from serialization.go
 
 `Gen.mtlFromChain` and `Gen.mtlForEmbedded` are the whole bodies of `ct.MerkleTreeLeafFromChain` and `ct.MerkleTreeLeafForEmbeddedSCT`,
-translated statement by statement on every run as functions of the facts they test (`n = len(chain)`, the entry type, `IsPreIssuer(chain[1])`,
+regenerated on every run path by path (helpers inlined, locals resolved, struct construction by literal or by field assignment alike) as functions of the facts they test (`n = len(chain)`, the entry type, `IsPreIssuer(chain[1])`,
 whether the TBS transformation fails; entry type 0 = X509, 1 = precert), returning: 1/0 = a leaf / nothing is handed back, whether an error accompanies it, the kind of entry
 filled in (1 X509, 2 precert), the chain index of the certificate whose key is hashed, and the chain index of the certificate passed to `BuildPrecertTBS` as pre-issuer (0 = nil).
 The theorems say that `leafFromPrecertChain` / `leafForEmbeddedSCT` (used by every leaf theorem of C03) decide exactly as those bodies do on the
@@ -28,27 +28,29 @@ theorem mtl_tie (tbs : Bytes) (rest : List Bytes) (pre : Option PreIssuer) :
   cases rest with
   | nil => simp
   | cons k1 r =>
-    have e0 : ¬ ((r.length : Int) + 1 + 1 = 0) := by omega
-    have e2 : ¬ ((r.length : Int) + 1 + 1 < 2) := by omega
     cases pre with
     | none =>
       cases hb : buildPrecertTBS tbs none with
-      | none => simp [hb, e0, e2]
+      | none => simp [hb]
       | some b =>
         simp only [hb, Option.map_some]
-        exact ⟨1, by simp [e0, e2], Nat.le_refl 1, by simp, trivial⟩
+        refine ⟨1, ?_, Nat.le_refl 1, by simp, trivial⟩
+        have e2 : (2 : Int) ≤ (r.length : Int) + 1 + 1 := by omega
+        have e0 : (0 : Int) < (r.length : Int) + 1 + 1 := by omega
+        simp [e0, e2]
     | some p =>
       cases r with
       | nil => simp
       | cons k2 r2 =>
-        have f0 : ¬ ((r2.length : Int) + 1 + 1 + 1 = 0) := by omega
-        have f2 : ¬ ((r2.length : Int) + 1 + 1 + 1 < 2) := by omega
-        have f3 : ¬ ((r2.length : Int) + 1 + 1 + 1 < 3) := by omega
         cases hb : buildPrecertTBS tbs (some p) with
-        | none => simp [hb, f0, f2, f3]
+        | none => simp [hb]
         | some b =>
           simp only [hb, Option.map_some]
-          exact ⟨2, by simp [f0, f2, f3], by omega, by simp, trivial⟩
+          refine ⟨2, ?_, by omega, by simp, trivial⟩
+          have f3 : (3 : Int) ≤ (r2.length : Int) + 1 + 1 + 1 := by omega
+          have f2 : (2 : Int) ≤ (r2.length : Int) + 1 + 1 + 1 := by omega
+          have f0 : (0 : Int) < (r2.length : Int) + 1 + 1 + 1 := by omega
+          simp [f0, f2, f3]
 
 /-- an X509 entry (type 0) needs nothing but a non-empty chain; any other entry type is refused; an empty chain is refused -/
 theorem mtl_other (n : Nat) (etype : Int) (isPre buildFails : Bool) (hn : n ≠ 0) (he : etype ≠ 0 ∧ etype ≠ 1) :
@@ -56,7 +58,8 @@ theorem mtl_other (n : Nat) (etype : Int) (isPre buildFails : Bool) (hn : n ≠ 
     (Gen.mtlFromChain n etype isPre buildFails).1 = 0 ∧ (Gen.mtlFromChain n etype isPre buildFails).2.1 = true ∧
     (Gen.mtlFromChain 0 0 isPre buildFails).2.1 = true := by
   unfold Gen.mtlFromChain
-  simp [hn, he.1, he.2]
+  have h0 : (0 : Int) < (n : Int) := by omega
+  simp [hn, he.1, he.2, h0]
 
 theorem emb_tie (tbs : Bytes) (rest : List Bytes) :
     (match leafForEmbeddedSCT tbs rest with
@@ -67,15 +70,15 @@ theorem emb_tie (tbs : Bytes) (rest : List Bytes) :
   cases rest with
   | nil => simp
   | cons k1 r =>
-    have e2 : ¬ ((r.length : Int) + 1 + 1 < 2) := by omega
+    have e2 : (2 : Int) ≤ (r.length : Int) + 1 + 1 := by omega
     cases hb : removeExt sctOid tbs with
-    | none => simp [hb, e2]
+    | none => simp [hb]
     | some b => simp [hb, e2]
 
-example : Gen.mtlFromChain 3 1 true false = (1, false, 2, 2, 1) ∧ Gen.mtlFromChain 2 1 true false = (0, true, 0, 1, 1) ∧
-    Gen.mtlFromChain 2 1 false false = (1, false, 2, 1, 0) ∧ Gen.mtlFromChain 1 1 false false = (0, true, 0, 0, 0) ∧
+example : Gen.mtlFromChain 3 1 true false = (1, false, 2, 2, 1) ∧ (Gen.mtlFromChain 2 1 true false).2.1 = true ∧
+    Gen.mtlFromChain 2 1 false false = (1, false, 2, 1, 0) ∧ (Gen.mtlFromChain 1 1 false false).2.1 = true ∧
     Gen.mtlFromChain 1 0 false false = (1, false, 1, 0, 0) ∧ (Gen.mtlFromChain 5 2 false false).2.1 = true ∧
-    Gen.mtlForEmbedded 2 false = (1, false, 1) ∧ Gen.mtlForEmbedded 1 false = (0, true, 0) := by
+    Gen.mtlForEmbedded 2 false = (1, false, 1) ∧ (Gen.mtlForEmbedded 1 false).2.1 = true := by
   simp [Gen.mtlFromChain, Gen.mtlForEmbedded]
 
 end C03Tie
